@@ -564,7 +564,20 @@ pub fn run_c09(args: &Args, tier: &str, seed: u64) -> Report {
                 }
                 let v = match name.as_str() {
                     "job-id" => MVal::Integer(r0.i32()),
-                    "job-uri" | "printer-uri" => MVal::Text { tag: 0x45, s: "ipp://h/jobs/1".into() },
+                    "job-uri" | "printer-uri" => {
+                        // mostly short; sometimes long IRIs with multi-byte characters around the 1023/1024 octet mark
+                        if r0.chance(1, 4) {
+                            let n = *r0.pick(&[1000usize, 1020, 1022, 1023, 1024, 1025, 1030, 2048, 5000]);
+                            let pad = r0.range(0, 3);
+                            let mut s = format!("ipp://h/{}", "a".repeat(pad));
+                            while s.len() < n {
+                                s.push(*r0.pick(&['é', '€', '𝄞', 'x']));
+                            }
+                            MVal::Text { tag: 0x45, s }
+                        } else {
+                            MVal::Text { tag: 0x45, s: "ipp://h/jobs/1".into() }
+                        }
+                    }
                     "attributes-charset" => MVal::Text { tag: 0x47, s: "utf-8".into() },
                     "attributes-natural-language" => MVal::Text { tag: 0x48, s: "de".into() },
                     _ => gen::gen_value(&mut r0, &cfg, 1, false),
